@@ -1,1 +1,223 @@
-/-! C05 - property theorems (declared with their full name `C05.<name>`; helper lemmas go to Lemmas/) -/
+import CohdlVerif.Lemmas.C05Lemmas
+
+/-!
+  C05 - property theorems: type conversions on assignment preserve the value or are rejected.
+
+  Model (Model/C05.lean): `assignOk` mirrors the accept/reject decision of the compiler per assignment form
+  (front-end trial `_assign` / `T(value)` + the back end's `format_cast`), in the behaviour AFTER the two proposed
+  repairs fixes/C05-declaration-trial-init.patch and fixes/C05-port-connection-type.patch; `castModel`/`evalV`
+  mirror the printed VHDL cast and its numeric_std meaning; `allowed`, `mustReject`, `convert` are the sentence of
+  the property.  All statements are for ALL widths and values.
+-/
+open CohdlVerif.C05
+
+/-- SOUNDNESS OF THE DECISION, every form: whatever is accepted is not one of the conversions the property names as
+    compile-time errors (narrowing, Signed<->Unsigned of equal width, width-mismatched BitVector, Bit<->vector,
+    non-representable integer literal, mismatching bit string). -/
+theorem C05.accepted_never_must_reject (f : Form) (t : Ty) (s : Src) (h : assignOk f t s = true) :
+    mustReject t s = false := by
+  cases f with
+  | assign | sub _ | view _ =>
+    simp only [assignOk, Bool.and_eq_true] at h
+    exact front_not_reject t s h.1
+  | init =>
+    cases s with
+    | rt st =>
+      simp only [assignOk, Bool.and_eq_true] at h
+      cases t with
+      | bv n | uns n | sgn n =>
+        all_goals
+          refine front_not_reject _ _ ?_
+          have h1 := h.1
+          simp [Ty.isVec, initFront] at h1
+          exact h1
+      | bit => cases st <;> simp_all [backOk, castModel, vhdlTarget, mustReject]
+      | bool => simp [mustReject]
+      | int => simp [mustReject]
+    | lit k | blit b | null | full | str bs =>
+      all_goals
+        simp only [assignOk, Bool.and_eq_true] at h
+        cases t <;> first
+          | (simp [mustReject]; done)
+          | exact front_not_reject _ _ (by simpa [initFront] using h.1)
+  | portIn | portOut =>
+    cases s <;> simp only [assignOk, Bool.and_eq_true] at h <;> first
+      | exact front_not_reject _ _ h.2
+      | exact absurd h (by simp)
+
+example : assignOk .init (.sgn 4) (.rt (.uns 4)) = false ∧ assignOk .portOut (.uns 2) (.rt (.uns 3)) = false ∧
+    assignOk .assign (.sgn 4) (.rt (.uns 3)) = true := by decide
+
+/-- ... and it is FALSE of the tree without the two repairs: a declaration `Signal[Unsigned[2]](signed2)` and an
+    output port `Unsigned[3]` connected to an `Unsigned[2]` signal are accepted (both reproduced on the real
+    compiler by harness/c05.py, the first reinterprets -1 as 3, the second drops a bit / is ill-typed VHDL). -/
+theorem C05.accepted_never_must_reject_fails_at_unpatched :
+    (assignOkUnpatched .init (.uns 2) (.rt (.sgn 2)) = true ∧ mustReject (.uns 2) (.rt (.sgn 2)) = true) ∧
+    (assignOkUnpatched .portOut (.uns 2) (.rt (.uns 3)) = true ∧ mustReject (.uns 2) (.rt (.uns 3)) = true) := by
+  decide
+
+/-- EXACT CHARACTERISATION for the assignment operators (`<<=` `.next` `^=` `.push` `@=` `.value`): outside the
+    pairs the sentence is silent about (`grey`: truthiness into bool, run-time Integer sources, ...), the compiler
+    accepts exactly the conversions the property lists as value preserving. -/
+theorem C05.assignOk_iff_allowed (t : Ty) (s : Src) (hg : grey t s = false) :
+    assignOk .assign t s = allowed t s := by
+  cases t <;> cases s <;> (try rename_i st; cases st) <;>
+    simp_all [grey, assignOk, assignFront, backOk, castModel, vhdlTarget, literalBackOk, allowed, mustReject, inRange,
+      sgnMin, sgnMax, unsMax] <;>
+    (try omega) <;>
+    (try (rename_i n; have := two_pow_pos (n - 1); omega)) <;>
+    (try (intro h; split <;> (try simp) <;> (try split) <;> (try simp) <;> omega))
+
+example : grey (.sgn 5) (.rt (.uns 5)) = false ∧ grey (.uns 3) (.lit 8) = false ∧ grey (.bool) (.rt (.uns 3)) = true := by
+  decide
+
+/-- VALUE PRESERVATION of the printed cast.  Full statement: for EVERY form f,
+      assignOk f t (rt s) -> s != Integer -> inRange s x ->
+      exists e, castModel (vhdlTarget f t) t s = some e  /\  the value of e is well typed for the declared VHDL object
+                /\  decodeAs t (evalV e (encode s x)) = convert t s x.
+    Proved here for the forms whose VHDL object has the target's own type (operators `<<= .next ^= .push @= .value`,
+    declarations, port connections) - all widths, all values.  Missing: slice / element / view targets
+    (`vhdlTarget f t != t`, 9 more (root kind, view kind) combinations of the same lemmas); those are covered by the
+    exhaustive simulation tie of harness/c05.py only. -/
+theorem C05.cast_preserves_partial (f : Form) (hf : f = .assign ∨ f = .init ∨ f = .portIn ∨ f = .portOut)
+    (t s : Ty) (x : Int) (h : assignOk f t (.rt s) = true) (hs : s ≠ .int)
+    (hwt : t.wf = true) (hws : s.wf = true) (hx : inRange s x = true) :
+    ∃ e, castModel (vhdlTarget f t) t s = some e ∧
+      vhdlWellTyped (vhdlTarget f t) (evalV e (encode s x)) = true ∧
+      decodeAs t (evalV e (encode s x)) = some (convert t s x) := by
+  have hvt : vhdlTarget f t = t := by
+    rcases hf with rfl | rfl | rfl | rfl <;> cases t <;> rfl
+  rw [hvt]
+  -- in all four forms acceptance implies that the back end finds a cast and that the pair is not a named error
+  have hnr := C05.accepted_never_must_reject f t (.rt s) h
+  have hback : (castModel t t s).isSome = true := by
+    rcases hf with rfl | rfl | rfl | rfl
+    · simp only [assignOk, Bool.and_eq_true, backOk, hvt] at h; exact h.2
+    · simp only [assignOk, Bool.and_eq_true, backOk, hvt] at h; exact h.2
+    · simp only [assignOk, Bool.and_eq_true, beq_iff_eq] at h
+      obtain ⟨rfl, h2⟩ := h
+      cases s <;> simp_all [castModel, assignFront]
+    · simp only [assignOk, Bool.and_eq_true, beq_iff_eq] at h
+      obtain ⟨rfl, h2⟩ := h
+      cases s <;> simp_all [castModel, assignFront]
+  change CastGood t t s x
+  cases t <;> cases s <;> simp_all [castModel, mustReject, Ty.wf]
+  all_goals first
+    | exact cast_bit_bit x hx
+    | exact cast_bit_bool x hx
+    | exact cast_bool_bit x hx
+    | exact cast_bool_bool x hx
+    | exact cast_bool_bv _ x hx
+    | exact cast_bool_uns _ x hx
+    | exact cast_bool_sgn _ hws x hx
+    | exact cast_same_bv _ x hx
+    | exact cast_bv_uns _ x hx
+    | exact cast_bv_sgn _ x
+    | exact cast_uns_bv _ x hx
+    | exact cast_sgn_bv _ x hx
+    | exact cast_sgn_uns _ _ x hnr hx
+    | exact cast_int_uns _ x hx
+    | exact cast_int_sgn _ hws x hx
+    | (rename_i n m
+       by_cases e : n = m
+       · subst e; first | exact cast_same_uns _ x hx | exact cast_same_sgn _ hws x hx
+       · first | exact cast_uns_uns n m x (by omega) hx | exact cast_sgn_sgn n m hws x (by omega) hx)
+
+
+example : assignOk .assign (.sgn 5) (.rt (.uns 3)) = true ∧ inRange (.uns 3) 7 = true := by decide
+
+/-- The run-time Integer is the exception (a genuine defect, findings.d/C05.json): `to_signed(x, n)` /
+    `to_unsigned(x, n)` wrap, the front end cannot see the value (its placeholder is 0). -/
+theorem C05.cast_preserves_fails_at_runtime_integer :
+    assignOk .assign (.sgn 3) (.rt .int) = true ∧
+    (castModel (.sgn 3) (.sgn 3) .int).map (fun e => decodeAs (.sgn 3) (evalV e (encode .int 5))) = some (some (-3)) ∧
+    convert (.sgn 3) .int 5 = 5 := by decide
+
+
+/-- NOTHING IS TRUNCATED OR REINTERPRETED: when a number-typed run-time source (Unsigned / Signed) is accepted for
+    a number-typed target in ANY form, every source value lies in the target's range and arrives as the same number. -/
+theorem C05.never_truncates (f : Form) (t s : Ty) (x : Int)
+    (h : assignOk f t (.rt s) = true) (ht : t.isNum = true) (hs : s.isNum = true) (hsi : s ≠ .int)
+    (hws : s.wf = true) (hx : inRange s x = true) :
+    inRange t x = true ∧ convert t s x = x := by
+  have hnr := C05.accepted_never_must_reject f t (.rt s) h
+  cases t <;> cases s <;> simp_all [Ty.isNum, mustReject, convert, Ty.wf]
+  all_goals first
+    | (simp [inRange]; done)
+    | (rename_i n m
+       simp only [inRange_uns, inRange_sgn] at *
+       have h2 := two_pow_pos n
+       first
+        | (have h1 := two_pow_mono (show m ≤ n by omega); omega)
+        | (have h1 := two_pow_mono (show m - 1 ≤ n - 1 by omega); omega)
+        | (have h1 := two_pow_mono (show m ≤ n - 1 by omega); have h3 := two_pow_pos (n - 1); omega))
+
+example : assignOk (.view .bv) (.sgn 4) (.rt (.uns 3)) = true ∧ inRange (.uns 3) 7 = true := by decide
+
+/-- INTEGER LITERALS MUST BE REPRESENTABLE: an accepted int literal lies in the target's range and keeps its value
+    (the only exception is Python truthiness `Signal[bool](5)` in a declaration, outside the property sentence). -/
+theorem C05.literal_representable (f : Form) (t : Ty) (k : Int) (h : assignOk f t (.lit k) = true)
+    (hb : ¬ (t = .bool ∧ f = .init)) :
+    inRange t k = true ∧ convertLit t (.lit k) = some k := by
+  have hfront : assignFront t (.lit k) = true := by
+    cases f <;> simp_all [assignOk] <;> (cases t <;> simp_all [initFront])
+  cases t <;> simp_all [assignFront, inRange, convertLit]
+  omega
+
+example : assignOk .assign (.sgn 4) (.lit (-8)) = true ∧ assignOk .assign (.sgn 4) (.lit 8) = false ∧
+    assignOk (.sub .uns) (.bit) (.lit 1) = true := by decide
+
+/-- `_try_join` IS SOUND: when it returns a type r, constructing r from every option is none of the conversions the
+    property names as errors (so every branch is redirected into the temporary by a permitted conversion). -/
+theorem C05.join_sound (opts : List Src) (r : Ty) (h : tryJoin opts = some r) :
+    ∀ o ∈ opts, initFront r o = true ∧ mustReject r o = false := by
+  unfold tryJoin at h
+  split at h
+  · exact absurd h (by simp)
+  · split at h
+    · split at h
+      · rename_i r' _ hall
+        injection h with h; subst h
+        intro o ho
+        have := List.all_eq_true.mp hall o ho
+        exact ⟨this, init_not_reject _ _ this⟩
+      · exact absurd h (by simp)
+    · exact absurd h (by simp)
+
+example : tryJoin [.rt (.bv 4), .rt (.sgn 4)] = some (.bv 4) ∧ tryJoin [.rt (.uns 4), .rt (.sgn 4)] = none ∧
+    tryJoin [.rt (.uns 4), .rt (.uns 3)] = none := by decide
+
+/-- MERGES (if-expression, function return, select_with): an accepted merge either goes through a join type r with
+    permitted conversions option -> r and r -> target, or every option is converted into the target directly by a
+    permitted conversion; equal literal branches are a plain assignment. -/
+theorem C05.merge_sound (t : Ty) (a b : Src) (h : mergeOk t [a, b] = true) :
+    (∃ r, tryJoin [a, b] = some r ∧ mustReject r a = false ∧ mustReject r b = false ∧ mustReject t (.rt r) = false) ∨
+    (mustReject t a = false ∧ mustReject t b = false) := by
+  unfold mergeOk at h
+  cases hsl : sameLiteral [a, b] with
+  | some c =>
+    rw [hsl] at h
+    simp only [sameLiteral, List.all_cons, List.all_nil, Bool.and_true] at hsl
+    split at hsl
+    · rename_i hc
+      simp only [Bool.and_eq_true, beq_iff_eq] at hc
+      injection hsl with hsl; subst hsl
+      have := C05.accepted_never_must_reject .assign t a h
+      exact Or.inr ⟨this, by rw [hc.2]; exact this⟩
+    · exact absurd hsl (by simp)
+  | none =>
+    rw [hsl] at h
+    unfold mergeJoin at h
+    cases hj : tryJoin [a, b] with
+    | some r =>
+      rw [hj] at h
+      simp only [List.all_cons, List.all_nil, Bool.and_true, Bool.and_eq_true] at h
+      have hs := C05.join_sound [a, b] r hj
+      exact Or.inl ⟨r, rfl, (hs a (by simp)).2, (hs b (by simp)).2, C05.accepted_never_must_reject .assign t (.rt r) h.2⟩
+    | none =>
+      rw [hj] at h
+      simp only [List.all_cons, List.all_nil, Bool.and_true, Bool.and_eq_true] at h
+      exact Or.inr ⟨init_not_reject _ _ h.1.1, init_not_reject _ _ h.2.1⟩
+
+example : mergeOk (.uns 2) [.rt (.bv 2), .rt (.sgn 2)] = true ∧ mergeOk (.uns 4) [.rt (.uns 2), .rt (.uns 3)] = true ∧
+    mergeOk (.uns 4) [.rt (.sgn 4), .rt (.uns 4)] = false := by decide
